@@ -38,6 +38,14 @@ def main():
                 continue
             applied = run(["patch", "-p1", "-s", "--fuzz=3", "--no-backup-if-mismatch", "-i", patch], cwd=clean)
             if applied.returncode == 0:
+                # fuzz may put a hunk into the wrong place: the result must at least still compile
+                changed = run(["git", "diff", "--name-only"], cwd=clean).stdout.split()
+                compiled = run([sys.executable, "-m", "py_compile"] + [name for name in changed if name.endswith(".py")], cwd=clean)
+                if compiled.returncode != 0:
+                    broken.append((name, ["applies only with fuzz and then does not compile"]))
+                    subprocess.check_call(["git", "checkout", "-q", "--", "."], cwd=clean)
+                    subprocess.check_call(["git", "clean", "-fdq"], cwd=clean)
+                    continue
                 diff = run(["git", "diff"], cwd=clean).stdout
                 original = os.path.join(os.path.dirname(patch), "patch.orig.diff")
                 if not os.path.exists(original):
